@@ -728,6 +728,33 @@ ExecStmt(M, s) ==
          IF M1.sig = "" THEN [M1 EXCEPT !.out = Append(@, <<"end", s.name>>)] ELSE M1
     [] s.k = "event" -> [M EXCEPT !.out = Append(@, <<s.what, s.name>>)]
     [] s.k = "block" -> ExecSeq(M, s.body, 1)
+    [] s.k = "accdata" ->
+         \* OpenACC data region: the arrays named in copyin/copy/copyout get a
+         \* device copy ("x@dev") and the body runs against it; copyin/copy start as
+         \* the host values, copyout starts undefined; at the end copy/copyout
+         \* arrays are copied back.  An undefined device element copied over a
+         \* defined host element is logged (clause NoPoisonToHost).  Scalars and
+         \* arrays in no clause stay on the host.
+         LET cin == SeqSet(s.copyin)  cout == SeqSet(s.copyout)  cboth == SeqSet(s.copy)
+             names == {nm \in cin \cup cout \cup cboth : nm \in DOMAIN M.st /\ M.st[nm].ex # <<>>}
+             dv(nm) == nm \o "@dev"
+             st1 == [x \in DOMAIN M.st \cup {dv(nm) : nm \in names} |->
+                       IF x \in DOMAIN M.st THEN M.st[x]
+                       ELSE LET nm == CHOOSE y \in names : dv(y) = x IN
+                            IF nm \in cin \cup cboth THEN M.st[nm]
+                            ELSE [M.st[nm] EXCEPT !.d = [p \in DOMAIN M.st[nm].d |-> POISON]]]
+             M1 == [M EXCEPT !.st = st1,
+                             !.env = [x \in DOMAIN M.env \cup names |->
+                                        IF x \in names THEN IdDesc(st1, dv(x)) ELSE M.env[x]]]
+             M2 == ExecSeq(M1, s.body, 1)
+             back == {nm \in names : nm \in cout \cup cboth}
+             bad == {nm \in back : \E p \in DOMAIN M2.st[nm].d :
+                                      IsP(M2.st[dv(nm)].d[p]) /\ ~IsP(M2.st[nm].d[p])}
+             st3 == [x \in DOMAIN M.st |->
+                       IF x \in back THEN [M2.st[x] EXCEPT !.d = M2.st[dv(x)].d] ELSE M2.st[x]]
+         IN IF M2.sig = "ub" THEN M2
+            ELSE [M2 EXCEPT !.st = st3, !.env = M.env,
+                            !.out = IF bad = {} THEN @ ELSE Append(@, <<"poison-to-host", bad>>)]
     [] s.k = "isub" ->
          \* intrinsic subroutine: s.reads are evaluated, every s.writes target
          \* (the arguments the Fortran standard says the intrinsic defines) gets
